@@ -1,8 +1,8 @@
 (* Compiled on every run of the C01 check: pins each statement and prints its assumptions. *)
 From Coq Require Import String.
 From Coq Require Import ZArith NArith List Bool Lia Arith.
-From SV Require Import lib.Core lib.CoreS lib.Bytecode lib.BytecodeS c01.Proofs_C01 c01.Properties_C01.
-From SV Require c01.Proofs_C01_set.
+From SV Require Import lib.Core lib.CoreS lib.CoreL lib.Bytecode lib.BytecodeS lib.BytecodeL c01.Proofs_C01 c01.Properties_C01.
+From SV Require c01.Proofs_C01_set c01.Proofs_C01_setl.
 Import ListNotations.
 Open Scope list_scope.
 
@@ -154,6 +154,24 @@ Check (C01_set_returns_old :
   beval (S n) r (BSetG g e) st = Some (BVal old (mkB (b_store st1) ((g, v) :: b_glob st1))) /\
   Core.lookup g ((g, v) :: b_glob st1) = Some v).
 
+Check (C01_simulation_setlocal :
+  forall limit tco n r e st res, leval n r e st = Some res ->
+  forall ce tail C pc below slots caps fs MG H,
+    code_at C pc (L.compile tco ce (length slots) tail e) ->
+    length below = S.cur_sp fs -> Proofs_C01_setl.frame_caps fs caps ->
+    Proofs_C01_setl.R1 tco r ce slots caps -> Proofs_C01_setl.R2 e r ce ->
+    L.wf ce (length slots) e = true -> Proofs_C01_setl.ce_lt ce (length slots) -> Proofs_C01_setl.slots_inj ce ->
+    Proofs_C01_setl.Srel tco (l_store st) H -> Proofs_C01_setl.Grel tco (l_glob st) MG ->
+    length fs + n <= limit ->
+    Proofs_C01_setl.tail_ok tail C (pc + length (L.compile tco ce (length slots) tail e)) (length slots) fs ->
+    match res with
+    | LVal v r' st' => exists mv MG' H', Proofs_C01_setl.vrel tco v mv /\ Proofs_C01_setl.Srel tco (l_store st') H' /\
+        Proofs_C01_setl.Grel tco (l_glob st') MG' /\
+        Proofs_C01_setl.post limit tco tail r' ce caps (S.mkVM C pc (below ++ slots) fs MG H) C
+          (pc + length (L.compile tco ce (length slots) tail e)) below slots fs mv MG' H'
+    | LErr k => exists s', S.star limit (S.mkVM C pc (below ++ slots) fs MG H) s' /\ S.vm_step limit s' = S.SErr k
+    end).
+
 Print Assumptions C01_simulation_L0.
 Print Assumptions C01_simulation_tail.
 Print Assumptions C01_program_simulation.
@@ -168,3 +186,4 @@ Print Assumptions C01_simulation_set.
 Print Assumptions C01_program_simulation_set.
 Print Assumptions C01_program_render_set.
 Print Assumptions C01_set_returns_old.
+Print Assumptions C01_simulation_setlocal.
